@@ -84,6 +84,9 @@ IMPORT_STYLES = [
      "Circle": "Circle", "Square": "Square", "Point": "Point", "Color": "colors.Color"},
     {"name": "relative-import-in-package", "lines": ["from .shapes import Circle, Square", "from .points import Point", "import colors"],
      "Circle": "Circle", "Square": "Square", "Point": "Point", "Color": "colors.Color"},
+    # the same lines, but the package's `shapes` module only re-exports the classes of the top-level module of the same name
+    {"name": "relative-import-of-reexport", "lines": ["from .shapes import Circle, Square", "from .points import Point", "import colors"],
+     "Circle": "Circle", "Square": "Square", "Point": "Point", "Color": "colors.Color"},
     {"name": "try-except-alternative-import", "lines": ["try:", "    from fastshapes import Circle, Square", "except ImportError:", "    from shapes import Circle, Square",
                                                        "from geo.util import Point", "import colors"],
      "Circle": "Circle", "Square": "Square", "Point": "Point", "Color": "colors.Color"},
